@@ -516,10 +516,7 @@ package shell_operator
 //@ pred IsEnableTask(t task.Task) := dyntype(t, *task.BaseTask) && t.(*task.BaseTask) != nil
 //@     && (t.(*task.BaseTask).Type == task_metadata.EnableKubernetesBindings || t.(*task.BaseTask).Type == task_metadata.EnableScheduleBindings)
 
-//@ package github.com/flant/shell-operator/pkg/hook
-//@ trusted func (*Manager).GetHookNames
-//@   modifies nothing
-//@ package github.com/flant/shell-operator/pkg/shell-operator
+// (*Manager).GetHookNames is a plain accessor: executed inline, not assumed.
 
 //@ func (*ShellOperator).bootstrapMainQueue
 //@   prop C06
